@@ -6,7 +6,309 @@ pub fn next_table(g: &mut Gen, r: &dyn Runner) -> String {
     g.mixed(r)
 }
 pub fn next_set(g: &mut Gen, r: &dyn Runner) -> String {
-    g.mixed(r)
+    if g.profile == "set-pairs" {
+        set_pairs(g, r)
+    } else {
+        set_single(g, r)
+    }
+}
+
+const SET_LAZY: &[&str] = &["union", "intersection", "difference", "symmetric_difference"];
+const SET_PRED: &[&str] = &["is_subset", "is_superset", "is_disjoint", "eq"];
+const SET_OPFORM: &[&str] = &["bitor", "bitand", "bitxor", "sub"];
+const SET_ASSIGN: &[&str] = &["bitor_assign", "bitand_assign", "bitxor_assign", "sub_assign"];
+
+fn set_other(tgt: &str) -> &'static str {
+    if tgt == "a" {
+        "b"
+    } else {
+        "a"
+    }
+}
+
+/// A key different from `k` (universes have at least 4 keys).
+fn set_other_key(g: &mut Gen, k: u64) -> u64 {
+    (k + 1 + g.rng.below(g.universe.max(2) - 1)) % g.universe.max(2)
+}
+
+fn set_capacity_op(g: &mut Gen, r: &dyn Runner, tgt: &str) -> String {
+    let d = r.dump(tgt);
+    let cap = (d.items + d.growth_left) as u64;
+    match g.rng.below(6) {
+        0 => format!("{} reserve {}", tgt, d.growth_left as u64 + g.rng.below(3)),
+        1 => format!("{} reserve {}", tgt, g.rng.below(3 * (cap + 2))),
+        2 => format!("{} try_reserve {}", tgt, g.rng.below(60)),
+        3 => format!("{} shrink_to {}", tgt, g.rng.below(2 * (cap + 1))),
+        4 => format!("{} shrink_to {}", tgt, d.items as u64 + g.rng.below(3)),
+        _ => format!("{} shrink_to_fit", tgt),
+    }
+}
+
+/// Profile `set`: the whole single-set API plus occasional binary operations.
+fn set_single(g: &mut Gen, r: &dyn Runner) -> String {
+    let x = g.rng.below(1000);
+    let k = g.key();
+    let tgt = if g.rng.chance(1, 4) { "b" } else { "a" };
+    if x < 200 {
+        format!("{} insert {} {}", tgt, k, g.id())
+    } else if x < 270 {
+        format!("{} remove {}", tgt, k)
+    } else if x < 300 {
+        format!("{} take {}", tgt, k)
+    } else if x < 325 {
+        format!("{} contains {}", tgt, k)
+    } else if x < 350 {
+        format!("{} get {}", tgt, k)
+    } else if x < 400 {
+        format!("{} replace {} {}", tgt, k, g.id())
+    } else if x < 440 {
+        format!("{} get_or_insert {} {}", tgt, k, g.id())
+    } else if x < 480 {
+        format!("{} get_or_insert_with {} {}", tgt, k, g.id())
+    } else if x < 500 {
+        let k2 = set_other_key(g, k);
+        format!("{} get_or_insert_with_bad {} {} {}", tgt, k, k2, g.id())
+    } else if x < 540 {
+        format!("{} entry_insert {} {}", tgt, k, g.id())
+    } else if x < 570 {
+        format!("{} entry_or_insert {} {}", tgt, k, g.id())
+    } else if x < 600 {
+        format!("{} entry_remove {} {}", tgt, k, g.id())
+    } else if x < 608 {
+        format!("{} clear", tgt)
+    } else if x < 670 {
+        set_capacity_op(g, r, tgt)
+    } else if x < 690 {
+        format!("{} retain", tgt)
+    } else if x < 705 {
+        format!("{} extract_if {}", tgt, g.rng.below(12))
+    } else if x < 717 {
+        format!("{} drain {} {}", tgt, g.rng.below(12), if g.rng.chance(1, 5) { 1 } else { 0 })
+    } else if x < 725 {
+        format!("{} into_iter {}", tgt, g.rng.below(12))
+    } else if x < 755 {
+        let len = r.dump(tgt).items as u64;
+        let p = match g.rng.below(4) {
+            0 => 0,
+            1 => len,
+            2 => len + 1 + g.rng.below(3),
+            _ => g.rng.below(len + 1),
+        };
+        format!("{} iter {}", tgt, p)
+    } else if x < 763 {
+        format!("{} with_capacity {}", tgt, g.rng.below(60))
+    } else if x < 780 {
+        format!("{} clone_to_other", tgt)
+    } else if x < 795 {
+        format!("{} clone_from", tgt)
+    } else if x < 800 {
+        format!("{} nop", tgt)
+    } else if x < 860 {
+        format!("{} {}", tgt, g.rng.pick(SET_LAZY))
+    } else if x < 910 {
+        format!("{} {}", tgt, g.rng.pick(SET_PRED))
+    } else if x < 955 {
+        format!("{} {}", tgt, g.rng.pick(SET_OPFORM))
+    } else {
+        format!("{} {}", tgt, g.rng.pick(SET_ASSIGN))
+    }
+}
+
+/// Keys of the pair universe that are / are not in `tgt`.
+fn set_absent_key(g: &mut Gen, r: &dyn Runner, tgt: &str, u: u64) -> Option<u64> {
+    let ks = r.keys(tgt);
+    let absent: Vec<u64> = (0..u).filter(|k| !ks.contains(k)).collect();
+    if absent.is_empty() {
+        None
+    } else {
+        Some(*g.rng.pick(&absent))
+    }
+}
+
+fn set_grow(g: &mut Gen, r: &dyn Runner, small: &str, u: u64) -> String {
+    match set_absent_key(g, r, small, u) {
+        Some(k) => format!("{} insert {} {}", small, k, g.id()),
+        None => {
+            let big = set_other(small);
+            let k = g.present_key(r, big).unwrap_or(0);
+            format!("{} remove {}", big, k)
+        }
+    }
+}
+
+/// One steering step towards the relation `mode`; `None` = the relation holds.
+fn set_steer(g: &mut Gen, r: &dyn Runner, mode: u64, u: u64) -> Option<String> {
+    let (ka, kb) = (r.keys("a"), r.keys("b"));
+    let (la, lb) = (ka.len(), kb.len());
+    let only_a: Vec<u64> = ka.iter().copied().filter(|k| !kb.contains(k)).collect();
+    let only_b: Vec<u64> = kb.iter().copied().filter(|k| !ka.contains(k)).collect();
+    let both: Vec<u64> = ka.iter().copied().filter(|k| kb.contains(k)).collect();
+    match mode {
+        // |a| < |b|
+        0 => (la >= lb).then(|| set_grow(g, r, "b", u)),
+        // |a| > |b|
+        1 => (la <= lb).then(|| set_grow(g, r, "a", u)),
+        // |a| = |b|
+        2 => {
+            if la < lb {
+                Some(if g.rng.chance(1, 2) { set_grow(g, r, "a", u) } else { format!("b remove {}", g.rng.pick(&kb)) })
+            } else if la > lb {
+                Some(if g.rng.chance(1, 2) { set_grow(g, r, "b", u) } else { format!("a remove {}", g.rng.pick(&ka)) })
+            } else {
+                None
+            }
+        }
+        // equal as sets, reached by different histories
+        3 => {
+            if let Some(&k) = only_a.last() {
+                Some(if g.rng.chance(3, 4) { format!("b insert {} {}", k, g.id()) } else { format!("a take {}", k) })
+            } else if let Some(&k) = only_b.first() {
+                Some(if g.rng.chance(3, 4) { format!("a get_or_insert {} {}", k, g.id()) } else { format!("b remove {}", k) })
+            } else {
+                None
+            }
+        }
+        // a is a subset of b
+        4 => only_a.last().map(|&k| {
+            if g.rng.chance(2, 3) {
+                format!("b entry_insert {} {}", k, g.id())
+            } else {
+                format!("a remove {}", k)
+            }
+        }),
+        // b is a subset of a
+        5 => only_b.first().map(|&k| {
+            if g.rng.chance(2, 3) {
+                format!("a replace {} {}", k, g.id())
+            } else {
+                format!("b entry_remove {} {}", k, g.id())
+            }
+        }),
+        // disjoint
+        6 => both.first().map(|&k| format!("{} remove {}", if g.rng.chance(1, 2) { "a" } else { "b" }, k)),
+        _ => None,
+    }
+}
+
+/// The binary operations of one round: every lazy op / predicate / operator form in both directions
+/// (shuffled), then assigning forms, each followed by a few observations of the new relation.
+fn set_binary_script(seed: u64) -> Vec<String> {
+    let mut rng = crate::tape::Rng::new(seed);
+    let mut v: Vec<String> = Vec::new();
+    for tgt in ["a", "b"] {
+        for op in SET_LAZY.iter().chain(SET_PRED).chain(SET_OPFORM) {
+            v.push(format!("{} {}", tgt, op));
+        }
+    }
+    for i in (1..v.len()).rev() {
+        let j = rng.below(i as u64 + 1) as usize;
+        v.swap(i, j);
+    }
+    let n_assign = 1 + rng.below(3);
+    for _ in 0..n_assign {
+        let tgt = if rng.chance(1, 2) { "a" } else { "b" };
+        v.push(format!("{} {}", tgt, rng.pick(SET_ASSIGN)));
+        for _ in 0..(2 + rng.below(5)) {
+            let t = if rng.chance(1, 2) { "a" } else { "b" };
+            let op = match rng.below(3) {
+                0 => *rng.pick(SET_LAZY),
+                1 => *rng.pick(SET_PRED),
+                _ => *rng.pick(SET_OPFORM),
+            };
+            v.push(format!("{} {}", t, op));
+        }
+    }
+    v
+}
+
+/// Profile `set-pairs`: rounds of (build `a` and `b` by different histories, steer to a size /
+/// inclusion relation, run every binary operation in both directions).
+/// Round state lives in `g.phase` (position), `g.fresh_key` (round seed), `g.target_buckets` (build length).
+fn set_pairs(g: &mut Gen, r: &dyn Runner) -> String {
+    const STEER_MAX: u32 = 60;
+    if g.phase == 0 {
+        g.fresh_key = g.rng.next();
+        // heavy rounds fill one set to a high load factor and then delete from it (tombstones)
+        let heavy = (g.fresh_key >> 8) % 3 == 0;
+        g.target_buckets = if heavy { 44 + g.rng.below(24) as usize } else { 3 + g.rng.below(24) as usize };
+        g.phase = 1;
+        // sometimes start the round from fresh tables of unrelated capacities
+        if g.rng.chance(1, 4) {
+            let tgt = if g.rng.chance(1, 2) { "a" } else { "b" };
+            return format!("{} with_capacity {}", tgt, g.rng.below(50));
+        }
+    }
+    let seed = g.fresh_key;
+    let mode = seed % 8;
+    let heavy = (seed >> 8) % 3 == 0;
+    // keys beyond the planned universe hash by the default mixer
+    let u = if heavy { 64 } else { g.universe.min(40) };
+    let blen = g.target_buckets as u32;
+    if g.phase <= blen && heavy {
+        g.phase += 1;
+        let htgt = if (seed >> 12) & 1 == 0 { "b" } else { "a" };
+        let d = r.dump(htgt);
+        // fill until the table sits exactly at its capacity with at least two groups' worth of
+        // elements, then delete from inside the full runs
+        let full = !d.is_singleton && d.growth_left == 0 && d.items >= 28;
+        let filling = !full && g.phase + 8 <= blen && (seed >> 16) & 1 == 0 || (!full && d.items < 20);
+        if full && (seed >> 16) & 1 == 0 {
+            g.fresh_key ^= 1 << 16;
+            g.target_buckets = g.phase as usize + 3 + g.rng.below(8) as usize;
+        }
+        let x = g.rng.below(100);
+        return if filling && x < 92 {
+            set_grow(g, r, htgt, u)
+        } else if !filling && x < 70 {
+            match g.present_key(r, htgt) {
+                Some(k) => format!("{} remove {}", htgt, k),
+                None => format!("{} insert {} {}", htgt, g.rng.below(u), g.id()),
+            }
+        } else if !filling && x < 80 {
+            format!("{} retain", htgt)
+        } else {
+            format!("{} insert {} {}", set_other(htgt), g.rng.below(u), g.id())
+        };
+    }
+    if g.phase <= blen {
+        g.phase += 1;
+        // different histories: `a` mostly grows, `b` churns and changes capacity
+        let tgt = if g.rng.chance(1, 2) { "a" } else { "b" };
+        let x = g.rng.below(100);
+        let k = g.rng.below(u);
+        let churn = if tgt == "b" { 30 } else { 12 };
+        return if x < 60 - churn / 2 {
+            format!("{} insert {} {}", tgt, k, g.id())
+        } else if x < 60 + churn / 2 {
+            match g.present_key(r, tgt) {
+                Some(k) => format!("{} remove {}", tgt, k),
+                None => format!("{} remove {}", tgt, k),
+            }
+        } else if x < 88 {
+            set_capacity_op(g, r, tgt)
+        } else if x < 94 {
+            format!("{} replace {} {}", tgt, k, g.id())
+        } else {
+            format!("{} retain", tgt)
+        };
+    }
+    if g.phase <= blen + STEER_MAX {
+        match set_steer(g, r, mode, u) {
+            Some(op) => {
+                g.phase += 1;
+                return op;
+            }
+            None => g.phase = blen + STEER_MAX + 1,
+        }
+    }
+    let script = set_binary_script(seed);
+    let idx = (g.phase - blen - STEER_MAX - 1) as usize;
+    if idx < script.len() {
+        g.phase += 1;
+        return script[idx].clone();
+    }
+    g.phase = 0;
+    set_pairs(g, r)
 }
 pub fn next_entry(g: &mut Gen, r: &dyn Runner) -> String {
     g.mixed(r)
